@@ -36,11 +36,13 @@ package v2
 //@   loop 1 invariant (errorsInBulk <==> errCount(ret) > 0) && (!continueOnFailure ==> errCount(ret) == 0)
 //@   loop 1 decreases len(bulk) - rangeindex
 //@   property C18
+//@   alsofor C09
 
 // C14: the dry-run flag of the request reaches the engine. The accepted spellings (YES / TRUE in any case, or 1)
 // are the API's; a request carrying one of them must never run as a real write.
 //@ def qparam(r, name) = lib("(net/url.Values).Get", lib("(*net/url.URL).Query", r.URL), name)
 //@ func v2.getCommandParameters
+//@   pure
 //@   requires r != nil
 //@   ensures ret.DryRun <==> (lib("strings.ToUpper", qparam(r, "dryRun")) == "YES" || lib("strings.ToUpper", qparam(r, "dryRun")) == "TRUE" || qparam(r, "dryRun") == "1")
 //@   ensures ret.IdempotencyKey == lib("(net/http.Header).Get", r.Header, "Idempotency-Key")
@@ -52,3 +54,9 @@ package v2
 //@ func v2.NewRouter
 //@   assumes !roMode
 //@   property C19
+
+// C09: the request is decoded into a zero value and its reference, timestamp and metadata reach the engine unchanged
+// (the clauses are on json.Decoder.Decode and backend.Ledger.CreateTransaction, scoped to this function)
+//@ func v2.postTransaction
+//@   requires r != nil
+//@   property C09
